@@ -217,6 +217,8 @@ func (w *World) AddFrame(f qframe.QFrame, origin string, owner int) *Member {
 // Bounds of the world.
 type Bounds struct {
 	MaxRows, MaxCols, MaxMembers int
+	// HugeOdds: one base frame in HugeOdds has 1024..1300 rows (0 = never).
+	HugeOdds uint64
 }
 
 // NewWorld draws the base frames (the slices handed to New stay owned by the
@@ -226,11 +228,16 @@ func NewWorld(t *rapid.T, b Bounds) *World {
 	w := &World{}
 	nbase := rapid.IntRange(1, 2).Draw(t, "nbase")
 	for i := 0; i < nbase; i++ {
-		fb := gen.FrameBounds{MaxCols: b.MaxCols, MaxRows: b.MaxRows, WithID: true, NoCR: false}
+		fb := gen.FrameBounds{MaxCols: b.MaxCols, MaxRows: b.MaxRows, WithID: true, NoCR: false, ManyEnumValues: true}
 		if i == 0 && gen.Rare(t, "bigbase", 40) {
 			// sizes beyond the small-frame regimes (insertion sort <= 12 rows,
 			// ninther pivot > 40, several hash-table growth steps)
 			fb.MinRows, fb.MaxRows = 41, 3*b.MaxRows+60
+		}
+		if i == 0 && b.HugeOdds > 0 && gen.Rare(t, "hugebase", b.HugeOdds) {
+			// beyond size thresholds of a thousand rows (caches and fast
+			// paths that only switch on for "large" frames)
+			fb.MinRows, fb.MaxRows, fb.MaxCols, fb.SmallDomain = 1024, 1300, 3, true
 		}
 		fb.SmallDomain = rapid.IntRange(0, 5).Draw(t, "smalldomain") != 0
 		fs := gen.DrawFrame(t, fb)
